@@ -7,7 +7,10 @@ props = [json.loads(l) for l in open(os.path.join(root, 'properties.jsonl'))]
 claims = json.load(open(os.path.join(root, 'tools', 'claims.json')))
 na_reasons = json.load(open(os.path.join(root, 'tools', 'not_applicable.json')))
 hooks = subprocess.run(['git', '-C', '/repo', 'log', '--format=%H %s', '1249922..HEAD'], capture_output=True, text=True).stdout.strip().split('\n')
-hook_commits = [l.split()[0] for l in hooks if l and ' verif hook' in l]
+def _only_hook_files(h):
+    fs = subprocess.run(['git', '-C', '/repo', 'show', '--name-only', '--format=', h], capture_output=True, text=True).stdout.split()
+    return bool(fs) and all('/zz_verif_' in f for f in fs)
+hook_commits = [l.split()[0] for l in hooks if l and _only_hook_files(l.split()[0])]
 checks = []
 for p in props:
     c = claims.get(p['id'])
